@@ -5,6 +5,7 @@
            (group hypotheses about the multiples of G only). *)
 From PV Require Import Base.Bytes Base.Outcome Base.Varint Model.Base64 Proofs.Base64P Model.MsgSign.
 From Coq Require Import ZifyBool ZifyNat ZifyN Zdiv Setoid Morphisms.
+Local Ltac Zify.zify_post_hook ::= idtac.   (* no div/mod expansion here: moduli are variables *)
 Local Open Scope Z_scope.
 
 (* ================================================================================================ *)
